@@ -111,6 +111,11 @@ static void t_slice(void) {
     CHECK(rs_slice_sum_pod(sp) == ep, "slice-read", "Pod slice of %lu", (unsigned long)k);
     uint64_t seed = rnd(); CSliceMut_u64 sm = { b64, m }; rs_slice_fill(sm, seed);
     for (uintptr_t i = 0; i < m; i++) CHECK(b64[i] == seed * (i + 1), "slice-write", "Rust write through CSliceMut not visible at %lu", (unsigned long)i);
+    /* text with NUL bytes anywhere (a {data, len} pair is not a C string): every byte up to len must reach the Rust side */
+    { uint8_t tx[24]; uintptr_t tn = below(25); uint64_t et = tn;
+      for (uintptr_t i = 0; i < tn; i++) { tx[i] = (below(3) == 0) ? 0 : (uint8_t)(32 + below(90)); et = et * 131 + tx[i] + 1; }
+      CSliceRef_u8 ts = { tx, tn };
+      CHECK(rs_str_digest(ts) == et, "str-read", "text of %lu bytes with NUL bytes read as &str", (unsigned long)tn); }
     CSliceRef_u8 st = rs_static_str(); CHECK(st.len == 6 && memcmp(st.data, "h\xc3\xa9llo", 6) == 0, "slice-read", "static str");
     CSliceRef_pod pp = rs_static_pods(); CHECK(pp.len == 3 && pp.data[2].a == 3 && pp.data[2].b == 30 && pp.data[1].b == 20, "slice-read", "static pods");
 }
